@@ -74,7 +74,7 @@ def build_table(tag, byte_strings, tbl=None, rounds=6):
     for rnd in range(rounds):
         pre = PRE + "Definition tbl : list (N * list (bytes * N)) := %s.\n" % tbl.term()
         terms = ["queries (tbl_hash tbl) %s" % hexbytes(b) for b in byte_strings]
-        vals = vf.coq_eval(f"{tag}-q{rnd}", pre, terms, shards=min(vf.NCPU, len(terms)))
+        vals = vf.coq_eval(f"{tag}-q{rnd}", pre, terms, shards=min(vf.NCPU, len(terms)), timeout=1700)
         qs = [bytes(q) for v in vals for q in v]
         if tbl.add_missing(qs) == 0:
             return tbl
@@ -170,7 +170,7 @@ def model_on_variants(tag, seg_table_pairs, variant_terms):
     pre = PRE
     for i, (seg, tbl) in enumerate(seg_table_pairs):
         pre += "Definition tbl%d : list (N * list (bytes * N)) := %s.\nDefinition seg%d : bytes := Eval vm_compute in %s.\n" % (i, tbl.term(), i, hexbytes(seg))
-    return vf.coq_eval(tag, pre, variant_terms, shards=min(vf.NCPU, max(1, len(variant_terms))))
+    return vf.coq_eval(tag, pre, variant_terms, shards=min(vf.NCPU, max(1, len(variant_terms))), timeout=1700)
 
 
 def prefix_model(tag, segs, ks_list):
@@ -252,6 +252,37 @@ def gen_ops(rng, nsub):
     return ",".join(ops) or "s0"
 
 
+def table_tie():
+    """P2: the table-shaped parts of the model regenerated from the source of /repo and compared:
+    WalRecordKind code -> label, the hash domain strings, the segment record magic."""
+    import re
+    src = open(os.path.join(vf.REPO, "crates/warp-core/src/causal_wal.rs")).read()
+    body = src[src.index("impl WalRecordKind {"):]
+    labels = dict(re.findall(r'Self::(\w+)\s*=>\s*(?:\{\s*)?"(\w+)"', body[body.index("pub const fn label"):body.index("pub const fn required_authority")]))
+    codes = dict(re.findall(r"Self::(\w+)\s*=>\s*(\d+),", body[body.index("pub const fn stable_code"):body.index("fn from_code")]))
+    want = {int(c): labels[k] for k, c in codes.items()}
+    consts = dict(re.findall(r'const (WAL_\w+): &\[u8(?:; \d+)?\] =\s*b"([^"]*)";', src))
+    names = [("dom_frame", "WAL_FRAME_DOMAIN"), ("dom_payload", "WAL_PAYLOAD_DOMAIN"), ("dom_root", "WAL_RECORDS_ROOT_DOMAIN"),
+             ("dom_commit", "WAL_COMMIT_DOMAIN"), ("dom_hdr", "WAL_HEADER_CHECKSUM_DOMAIN"), ("dom_fchk", "WAL_FRAME_CHECKSUM_DOMAIN"),
+             ("dom_disk", "WAL_DISK_RECORD_DOMAIN"), ("magic", "WAL_SEGMENT_RECORD_MAGIC")]
+    terms = ["map kind_label [%s]" % ";".join(str(c) for c in sorted(want))] + [n for n, _ in names]
+    vals = vf.coq_eval("c10-tables", PRE, terms, shards=1)
+    bad = []
+    for c, v in zip(sorted(want), vals[0]):
+        if bytes(v).decode() != want[c]:
+            bad.append(f"kind_label {c}: model={bytes(v).decode()!r} source={want[c]!r}")
+    if len(want) != 31:
+        bad.append(f"WalRecordKind has {len(want)} codes in the source, the model has 31")
+    for (n, cname), v in zip(names, vals[1:]):
+        raw = consts.get(cname)
+        if raw is None:
+            bad.append(f"constant {cname} not found in the source"); continue
+        exp = raw.replace("\\0", "\0").encode()
+        if bytes(v) != exp:
+            bad.append(f"{n}: model={bytes(v)!r} source={exp!r}")
+    return len(want) + len(names), bad
+
+
 def sample_ks(n, ends, tier):
     if tier == "thorough" or n <= 2600:
         return list(range(n + 1))
@@ -296,6 +327,14 @@ def run(tier, seed, replay=None):
     except (vf.Broken, Exception) as e:
         r.is_broken("harness-run", e)
         return r.finish()
+    # P2: table-shaped parts of the model against the source
+    try:
+        ntab, bad = table_tie()
+        r.phase("P2_tables", compared=ntab, differing=len(bad))
+        for b in bad[:3]:
+            r.is_broken("tables", b)
+    except (vf.Broken, Exception) as e:
+        r.is_broken("tables", repr(e))
     # P5: implementation-side oracle
     nfail = 0
     for c, l in zip(cases, lines):
